@@ -1,7 +1,7 @@
 (** C19 — Instance-name routing: longest-prefix demultiplexing with prefix
     rewriting, instance-name trie, patcher, hierarchical instance names.
     Statements only; proofs are in Routing/*Proofs.v. *)
-From BBS Require Import Common.Sx Routing.Names Routing.NamesProofs Routing.Trie Routing.TrieProofs
+From BBS Require Import Common.Sx Routing.Names Routing.NamesProofs Routing.Trie Routing.TrieProofs Routing.TrieFull
   Routing.Patcher Routing.PatcherProofs Routing.Demux Routing.DemuxProofs Routing.HierNames Routing.HierProofs Run.R19.
 Open Scope Z_scope.
 
@@ -37,19 +37,46 @@ Theorem set_spec : forall t n v, reach t -> 0 <= v ->
 Proof. exact set_to_map. Qed.
 Print Assumptions set_spec.
 
-(** Full statement (the last clause as an equivalence):
-      ... /\ (b = true <-> forall m, assoc_get (to_map t') m = -1)
-    The direction "empty => true" needs the invariant that reachable tries have
-    no value-less leaves; it is checked against the real trie on every run
-    (monitor clause 3) but not proved here.  Remove of an absent name whose node
-    does not exist is [Panic] in the model (nil dereference in Go), hence the
-    hypothesis. *)
-Theorem remove_spec_partial : forall t n, reach t -> 0 <= assoc_get (to_map t) n ->
-  exists t' b, remove t n = Ok (t', b) /\
-    (forall m, assoc_get (to_map t') m = assoc_get (assoc_remove (to_map t) n) m) /\
-    (b = true -> forall m, assoc_get (to_map t') m = -1).
-Proof. exact remove_to_map. Qed.
-Print Assumptions remove_spec_partial.
+(** No dead branches: in every reachable trie every node other than the root
+    lies on the path to a registered name, and every leaf other than the root is
+    itself registered ([subtrie t p] = the node reached from the root along [p]).
+    Hence a reachable trie that stands for the empty map IS the empty trie. *)
+Theorem reachable_trie_has_no_dead_branch : forall t p s, reach t -> subtrie t p = Some s -> p <> nil ->
+  (exists m, 0 <= assoc_get (to_map t) (p ++ m)) /\ (tch s = nil -> 0 <= assoc_get (to_map t) p).
+Proof. exact reach_no_dead_branch. Qed.
+Print Assumptions reachable_trie_has_no_dead_branch.
+
+Theorem reachable_trie_without_names_is_empty : forall t, reach t ->
+  (forall m, assoc_get (to_map t) m = -1) -> t = empty_trie.
+Proof. exact reach_no_names_empty. Qed.
+Print Assumptions reachable_trie_without_names_is_empty.
+
+(** Remove of a registered name: succeeds (no nil dereference), deletes exactly
+    that name, and returns [true] exactly when the trie became empty.  Remove of
+    an absent name whose node does not exist is [Panic] in the model (nil
+    dereference in Go), hence the hypothesis. *)
+Theorem remove_spec : forall t n, reach t -> 0 <= assoc_get (to_map t) n ->
+  exists t' b, remove t n = Ok (t', b) /    (forall m, assoc_get (to_map t') m = assoc_get (assoc_remove (to_map t) n) m) /    (b = true <-> forall m, assoc_get (to_map t') m = -1).
+Proof. exact remove_to_map_full. Qed.
+Print Assumptions remove_spec.
+
+(** ... and whenever Remove does not panic (the node of the name exists, with or
+    without a value) its result is "the trie is now empty" *)
+Theorem remove_result_iff_empty : forall t n t' b, reach t -> remove t n = Ok (t', b) ->
+  (b = true <-> forall m, assoc_get (to_map t') m = -1).
+Proof. exact remove_ok_full. Qed.
+Print Assumptions remove_result_iff_empty.
+
+(** non-vacuity: removing the only name below an inner chain cuts the whole
+    chain (the trie is the empty trie again, result true); with a sibling left
+    the result is false and no value-less leaf remains *)
+Example remove_example :
+  let a := [97%N] in let b := [98%N] in
+  remove (set empty_trie [a; b; a] 3) [a; b; a] = Ok (empty_trie, true)
+  /\ remove (set (set empty_trie [a; b; a] 3) [a; a] 4) [a; b; a]
+     = Ok (Node (-1) [(a, Node (-1) [(a, Node 4 [])])], false)
+  /\ remove (set (set empty_trie [a; b] 3) [a] 4) [a] = Ok (set empty_trie [a; b] 3, false).
+Proof. vm_compute. repeat split; reflexivity. Qed.
 
 (** "ab" has the string prefix "a" but not the component prefix: it is not
     routed to "a"; "a/b" is. *)
